@@ -4,6 +4,7 @@ import Pxv.Lemmas.StalemateInClass
 import Pxv.Lemmas.Complex
 import Pxv.Lemmas.PassesSilent
 import Pxv.Lemmas.ComplexCloneable
+import Pxv.Lemmas.McCloneable
 import Pxv.Model.BorrowCheck
 /-!
 C02 — rule-abiding blueprints are accepted: the ordering step never gets stuck.
@@ -534,6 +535,19 @@ theorem complex_pass_accepts_when_contended_values_cloneable {g : Graph} (hwf : 
 example : (exX true true).wellFormed = true ∧ contendedCloneable (exX true true) = true ∧ uncontended (exX true true) = false ∧
     (complexCheck (exX true true)).g.size = 6 := by decide
 example : contendedCloneable (exX false false) = false ∧ contendedCloneable (exX true false) = false := by decide
+
+/-- **C02 — `multiple_consumers` never rejects an application whose contended values are clone-if-necessary**: if every value
+    that several nodes take by value is Copy, a reference, or may be cloned, the pass reports nothing — it clones instead, and
+    the clones it inserts for one value leave the flags and the by-value consumers of every other value as they were
+    (`Pres`), so the argument goes through the whole traversal. -/
+theorem multiple_consumers_accepts_when_contended_values_cloneable {g : Graph} (hq : mcCloneable g = true) :
+    (multipleConsumers g).2 = [] :=
+  multipleConsumers_no_diag hq
+
+-- non-vacuity: a clone-if-necessary value with two by-value consumers on one path: no diagnostic, one clone
+example : mcCloneable ⟨[{ cloneable := true }, {}, {}, {}], [⟨0, 1, .move⟩, ⟨0, 2, .move⟩, ⟨1, 3, .move⟩, ⟨2, 3, .move⟩]⟩ = true ∧
+    (multipleConsumers ⟨[{ cloneable := true }, {}, {}, {}], [⟨0, 1, .move⟩, ⟨0, 2, .move⟩, ⟨1, 3, .move⟩, ⟨2, 3, .move⟩]⟩).1.size = 5 ∧
+    (multipleConsumers ⟨[{}, {}, {}, {}], [⟨0, 1, .move⟩, ⟨0, 2, .move⟩, ⟨1, 3, .move⟩, ⟨2, 3, .move⟩]⟩).2.length = 1 := by decide
 
 /-! ### the whole borrow checker on rule-abiding call graphs -/
 
